@@ -35,6 +35,7 @@ import (
 
 	"github.com/invopop/gobl"
 	"github.com/invopop/gobl/bill"
+	"github.com/invopop/gobl/cbc"
 	"github.com/invopop/gobl/currency"
 	"github.com/invopop/gobl/org"
 	"github.com/invopop/gobl/tax"
@@ -931,6 +932,22 @@ func normaliserNotIdempotentAt[T any, PT interface {
 	return found
 }
 
+// emptyExtensionValue: some `ext` object of the input holds a member whose value is empty once it is
+// normalised ("", blanks, separators only).  Normalisers that supply a default for an extension when
+// its key is ABSENT (tax.Extensions.Has looks at the key, not at the value) see the key and skip the
+// default; the empty member is cleaned away afterwards, so the second calculation supplies the default.
+func emptyExtensionValue(root any) bool {
+	found := false
+	objectsUnder(root, "ext", func(o map[string]any) {
+		for _, v := range o {
+			if s, ok := v.(string); ok && cbc.NormalizeCode(cbc.Code(s)) == "" {
+				found = true
+			}
+		}
+	})
+	return found
+}
+
 func dirtyClassify(data []byte, spec *DirtySpec) string {
 	root, err := decodeTree(data)
 	if err != nil {
@@ -971,6 +988,8 @@ func dirtyClassify(data []byte, spec *DirtySpec) string {
 		return "c04.storedTaxBaseCoarserThanCurrency"
 	case tbaiRegionNotTrimmed(root):
 		return "c04.tbaiRegionNotTrimmed"
+	case emptyExtensionValue(root):
+		return "c04.emptyExtensionValueSuppressesDefault"
 	case normaliserNotIdempotentAt[org.Inbox](root, "inboxes", ns):
 		return "c04.inboxNormaliserNotIdempotent"
 	case normaliserNotIdempotentAt[org.Identity](root, "identities", ns):
